@@ -421,3 +421,20 @@ _ZDEF = "def zernike_noll(j, N, rot=0):"
 SEEDED["C20"] += [(ZER, _ZDEF + "|||" + _ZN_OLD, "_noll_modes = {}\n\n\n" + _ZDEF + "|||" + _ZN_BAD, "P2"),
                   (ZER, _ZDEF + "|||" + _ZN_OLD, "_noll_modes = {}\n\n\n" + _ZDEF + "|||" + _ZN_NOCOPY, "P2")]
 BENIGN["C20"] += [(ZER, _ZDEF + "|||" + _ZN_OLD, "_noll_modes = {}\n\n\n" + _ZDEF + "|||" + _ZN_OK)]
+
+# C15: refactors that keep the behaviour
+BENIGN["C15"] += [
+    (CEN, "        cy -= float(ny) / 2. * (float(padding) - 1)\n        cx -= float(nx) / 2. * (float(padding) - 1)\n",
+          "        cy = cy - 0.5 * ny * (padding - 1)\n        cx = cx - 0.5 * nx * (padding - 1)\n"),
+    (CEN, "        y_centroid = (y_cent*img).sum()/img.sum()\n        x_centroid = (x_cent*img).sum()/img.sum()\n",
+          "        total = img.sum()\n        y_centroid = numpy.sum(y_cent*img)/total\n        x_centroid = numpy.sum(img*x_cent)/total\n"),
+    (CEN, "    cross_correlation = frame * reference_image\n", "    cross_correlation = reference_image\n    cross_correlation = cross_correlation * frame\n"),
+    (CEN, "        corr = cross_correlate(im[frame], ref, padding=padding)\n", "        this_frame = im[frame]\n        corr = cross_correlate(this_frame, ref, padding)\n"),
+]
+BENIGN["C15"] += [
+    (CEN, "    cross_correlation = frame * reference_image\n", "    cross_correlation = frame\n    cross_correlation *= reference_image\n    frame = cross_correlation\n"),
+]
+SEEDED["C15"] += [
+    (CEN, "    centroids = numpy.zeros((2, nt))\n|||        corr = cross_correlate(im[frame], ref, padding=padding)\n",
+          "    centroids = numpy.zeros((2, nt))\n    acc = numpy.zeros((ny, nx))\n|||        work = acc\n        work += im[frame]\n        corr = cross_correlate(work, ref, padding=padding)\n", "H2.frames-independent"),
+]
